@@ -1,5 +1,18 @@
+from pyvc import lean
+
 INFO = {
     "level": "proof",
-    "level_text": "placeholder",
-    "level_note": "placeholder",
+    "level_text": "tick adds exactly the step length and nothing else; every function between a vehicle update and Update.apply_update carries the frame `clock untouched` (part of their contracts), so one apply_update advances sim_time by exactly dt (proved for all states); crank(n) and LocalSimulationRunner.run are folds of that step, proved with inductive invariants `time = t0 + i*dt` (nonlinear integer arithmetic), so crank(n) ends at t0 + n*dt, run ends at the configured end time when dt divides the interval, and step() refuses at or beyond the end time. Composition crank(a);crank(b) = crank(a+b) is lemma L4 (fold split, Lean) whose premise — the step function ignores its index — is an AST obligation on the two step closures.",
+    "level_note": "Update.apply_update is used through its contract; `same states and events` is equality of the values of one pure step function (C16) iterated; events are equal only up to the order within a step (C01). When dt does not divide end-start the runner overshoots the end time by less than one step (stated in the contract, not a violation of the clauses proved).",
+    "trusted_base": ["lemma L4 (fold over range(a+b) splits), checked by lean on every run", "tqdm(range(..)) iterates range(..)"],
+    "assumptions": ["pre-step update functions satisfy the interface contract `clock untouched, state stays well-formed` (proved for the shipped ones under C11/C03 where in reach)",
+                    "instruction generators are arbitrary (open interface)"],
+    "not_decided": ["exact coverage of [start, end] when dt does not divide end - start", "crank has no end-time check (co-simulation may step beyond the configured end: by design of that API)"],
 }
+
+
+def extra_obligations(repo, world, ex, R, tier, timeout_ms):
+    obs = lean.lean_obligations("C15", ["L4_fold_split"])
+    obs.append(lean.unused_param_obligation(repo, "C15", "nrel/hive/app/hive_cosim.py::crank.run_step", "i"))
+    obs.append(lean.unused_param_obligation(repo, "C15", "nrel/hive/runner/local_simulation_runner.py::_run_step_in_context._run_step", "t"))
+    return obs
